@@ -246,7 +246,7 @@ def run_tlc(module, cfg_text, workers=16, dump=False, simulate=None, coverage=Fa
     cfg = os.path.join(wd, module + '.cfg')
     with open(cfg, 'w') as f:
         f.write(cfg_text)
-    cmd = ['java', '-XX:+UseParallelGC', '-Xmx' + heap] + list(java_opts) + \
+    cmd = ['java', '-XX:+UseParallelGC', '-Xmx' + heap, '-Xss128m'] + list(java_opts) + \
           ['-cp', JAVA_CP, 'tlc2.TLC', '-workers', str(workers), '-metadir', os.path.join(wd, 'meta'),
            '-noGenerateSpecTE', '-config', cfg]
     if not deadlock:
